@@ -7,6 +7,7 @@ from emit import Unit, Sel
 from sym import SpecLib
 import c_vector
 import c_point
+import c_matrix
 
 
 def unit_C03(src, model='R'):
@@ -41,11 +42,49 @@ def unit_C12(src, model='R'):
     return u
 
 
+def base_linear(u, transform_space=r'Point3<S>'):
+    """vectors + points + matrices: spec library, contracts, selections shared by C01/C02 and the rotation units"""
+    lib = SpecLib()
+    F = c_vector.build(lib)
+    c_point.build(lib, F)
+    c_matrix.build(lib, F)
+    u.spec_texts.append(c_matrix.idx_specs())
+    u.extra_prelude.append(c_matrix.layout_prelude())
+    u.contract_fns += [c_matrix.contracts, c_point.contracts, c_vector.contracts]
+    c_vector.select_c03(u)
+    c_point.select_c12(u)
+    c_matrix.select_c01(u, transform_space)
+    return lib, F
+
+
+def add_laws(u, laws):
+    for L in laws:
+        pa, pb = L.render()
+        u.lemma_texts.append(pa)
+        u.poly_texts.append(pb)
+
+
+def unit_C01(src, model='R'):
+    u = Unit('C01', src, model)
+    lib, F = base_linear(u)
+    u.spec_texts.append(lib.text())
+    add_laws(u, c_matrix.laws(F))
+    return u
+
+
+def unit_C01t(src, model='R'):
+    """twin of C01 holding `Transform<Point2<S>> for Matrix3<S>` (see c_matrix.select_c01)"""
+    u = Unit('C01t', src, model)
+    lib, F = base_linear(u, r'Point2<S>')
+    u.spec_texts.append(lib.text())
+    return u
+
+
 def build_C03(src, tier):
     return [unit_C03(src, 'R')]
 
 
-UNITS = {'C03': build_C03, 'C12': lambda src, tier: [unit_C12(src, 'R')]}
+UNITS = {'C01': lambda src, tier: [unit_C01(src, 'R'), unit_C01t(src, 'R')], 'C03': build_C03, 'C12': lambda src, tier: [unit_C12(src, 'R')]}
 KANI = {}
 META = {
     'C03': dict(min_obligations=350, trust=['A1', 'A2', 'A6'],
